@@ -42,7 +42,7 @@ def _design_counterexamples(work, cfgfile):
     """TLC on the design as found; returns (tlc result, [(clauses, events)]) - the shortest history per clause set."""
     sd = os.path.join(SPECS, "ReplStore")
     cfg = open(os.path.join(sd, cfgfile)).read()
-    res = run_tlc(sd, "ReplStoreShape", cfg, work, workers=1, timeout=900, name=cfgfile[3:-4])
+    res = run_tlc(sd, "ReplStoreShape", cfg, work, workers=1, timeout=900, name=cfgfile[3:-4], extra_java=["-XX:ParallelGCThreads=2"])
     if "Model checking completed" not in res["out"] or "Error:" in res["out"]:
         raise Infra("ReplStoreShape (design as found, %s) did not run to completion:\n%s" % (cfgfile, res["out"][-2000:]))
     best = {}
@@ -62,10 +62,10 @@ def _design_counterexamples(work, cfgfile):
 
 def _design_must_pass(work, module, cfgfile, workers):
     sd = os.path.join(SPECS, "ReplStore")
-    res = run_tlc(sd, module, open(os.path.join(sd, cfgfile)).read(), work, workers=workers, timeout=2400, name=cfgfile[:-4])
+    res = run_tlc(sd, module, open(os.path.join(sd, cfgfile)).read(), work, workers=workers, timeout=2400, name=cfgfile[:-4], extra_java=["-XX:ParallelGCThreads=2"])
     if "No error has been found" not in res["out"]:
         raise Infra("design spec %s/%s did not pass TLC (a specification problem, not a verdict):\n%s" % (module, cfgfile, res["out"][-3000:]))
-    return dict(module=module, cfg=cfgfile, states=res["distinct"], transitions=res["generated"])
+    return dict(module=module, cfg=cfgfile, states=res["distinct"], transitions=res["generated"], wall_s=round(res["wall"], 1))
 
 
 def runner(prop, fam, tier, seed, replay=None):
@@ -120,7 +120,7 @@ def runner(prop, fam, tier, seed, replay=None):
             finally:
                 pool.shutdown(wait=True)
             for d in design_stats:
-                log("design %s/%s: %d distinct states" % (d["module"], d["cfg"], d["states"]))
+                log("design %s/%s: %d distinct states (%.0f s)" % (d["module"], d["cfg"], d["states"], d["wall_s"]))
         if rc == 2:
             return 2
         if shape_info is not None:
